@@ -5,6 +5,7 @@ import L4.Drv.Codec
 import L4.Drv.LB
 import L4.Drv.PP
 import L4.Drv.Tls
+import L4.Drv.Socks5
 open L4 L4.Drv
 
 def dispatch (line : String) : String :=
@@ -16,6 +17,7 @@ def dispatch (line : String) : String :=
   | "lb" :: rest => (doLB.run rest).1
   | "pp" :: rest => (doPP.run rest).1
   | "hello" :: rest => (doHello.run rest).1
+  | "socks5" :: rest => (doSocks5.run rest).1
   | _ => "bad-op"
 
 partial def loop (h : IO.FS.Stream) (out : IO.FS.Stream) : IO Unit := do
